@@ -25,10 +25,14 @@ def safe(s: str) -> str:
     return re.sub(r"[^A-Za-z0-9_.@-]+", "_", s)[:150]
 
 
+# scratch runs against another tree (tools/seedcheck.sh) keep their replays and evidence out of /verif
+OUTROOT = os.environ.get("PYVC_OUT") or os.path.join(VERIF, "out")
+
+
 def write_replay(prop: str, ob: Obligation) -> tuple[str, bool, str]:
     """generate the replay script of a refuted obligation, run it on the real code; returns
     (path, reproduced, output)"""
-    d = os.path.join(VERIF, "out", "replays", prop)
+    d = os.path.join(OUTROOT, "replays", prop)
     os.makedirs(d, exist_ok=True)
     path = os.path.join(d, safe(ob.key) + ".py")
     w = ob.witness or {}
@@ -191,8 +195,9 @@ def write_evidence(prop, tier, seed, obs, meta, known_hits, violations, undecide
     ev = {"property_id": prop, "tier": tier, "seed": seed, "level": level, "coverage": cov,
           "assumptions": COMMON_ASSUMPTIONS + meta.get("assumptions", []),
           "wall_s": round(wall, 2), "violations": len(violations)}
-    os.makedirs(os.path.join(VERIF, "evidence"), exist_ok=True)
-    json.dump(ev, open(os.path.join(VERIF, "evidence", f"{prop}.json"), "w"), indent=1, default=str)
+    evdir = os.path.join(VERIF, "evidence") if "PYVC_OUT" not in os.environ else os.path.join(OUTROOT, "evidence")
+    os.makedirs(evdir, exist_ok=True)
+    json.dump(ev, open(os.path.join(evdir, f"{prop}.json"), "w"), indent=1, default=str)
 
 
 def main():
